@@ -55,7 +55,8 @@ class JoinableStringList:
 
     # NB: a doubled delimiter inside a quoted string (e.g., 'it''s') is part of that string
     _pattern_quoted_string = re.compile(r'(?:\'(?:[^\']|\'\')*\')|(?:"(?:[^"]|"")*")')
-    _pattern_chunk_separator = re.compile(r'(\s|\)(?!%)|\n)')
+    # NB: the closing delimiter ``/)`` of an array constructor is one token and must not be split
+    _pattern_chunk_separator = re.compile(r'(\s|(?<!/)\)(?!%)|\n)')
 
     def __init__(self, items, sep, width, cont, separable=True):
         super().__init__()
